@@ -1,0 +1,373 @@
+//! Verification hooks. Compiled only with `--cfg sighook_verif`; never part of a normal build.
+//!
+//! Drop-in replacements for the few `std::sync` primitives the crates use. Every operation on
+//! them first calls the installed `before` hook (a *scheduling point*: a test harness may park
+//! the calling thread there until a deterministic scheduler grants it one step) and reports the
+//! result to the `after` hook. Without installed hooks they just forward to `std`.
+
+#![allow(missing_docs)]
+
+use std::fmt;
+use std::ops::{Deref, DerefMut};
+use std::sync::atomic as std_atomic;
+use std::sync::atomic::Ordering;
+use std::sync::{LockResult, PoisonError, TryLockError};
+
+/// The kind of an operation reported to the hooks.
+#[derive(Clone, Copy, Debug, PartialEq, Eq)]
+#[repr(u8)]
+pub enum Op {
+    Load = 0,
+    Store = 1,
+    Swap = 2,
+    FetchAdd = 3,
+    FetchSub = 4,
+    /// Compare-exchange; `arg` = expected, `arg2` = new, `res` = previous value, `ok` says if it
+    /// succeeded.
+    Cas = 5,
+    /// One attempt to take a mutex; `ok` = acquired. A failed attempt is repeated.
+    Lock = 6,
+    Unlock = 7,
+    Yield = 8,
+    Spin = 9,
+    /// A heap object (snapshot) was created; `arg` = its address. Not a scheduling point.
+    Alloc = 10,
+    /// A heap object is about to be released; `arg` = its address.
+    Free = 11,
+    /// `sigaction`; `addr` = signal number, `arg` = 1 if it installs, 0 if it only queries.
+    Sigaction = 12,
+    /// Access to a channel cell; `arg` = index.
+    CellWrite = 13,
+    CellTake = 14,
+    /// A system call on a descriptor; `addr` = fd, `arg` = 1 send/write wake, 2 drain (recv
+    /// until empty), 3 blocking read of one byte.
+    Syscall = 15,
+}
+
+/// One operation, as seen by the hooks.
+#[derive(Clone, Copy, Debug)]
+pub struct Event {
+    pub op: Op,
+    /// Address of the object operated on (or signal number / descriptor, see [`Op`]).
+    pub addr: usize,
+    pub arg: usize,
+    pub arg2: usize,
+    pub res: usize,
+    pub ok: bool,
+    /// Memory ordering (success ordering for CAS) as 0 Relaxed, 1 Release, 2 Acquire, 3 AcqRel,
+    /// 4 SeqCst; 255 if not applicable.
+    pub ord: u8,
+    /// Failure ordering of a CAS.
+    pub ord_fail: u8,
+    /// A weak compare-exchange (which may fail spuriously).
+    pub weak: bool,
+}
+
+/// What the `before` hook wants the operation to do.
+#[derive(Clone, Copy, Debug, PartialEq, Eq)]
+pub enum Directive {
+    Proceed,
+    /// Only meaningful for a weak CAS: fail without looking at the value.
+    FailSpuriously,
+}
+
+/// The callbacks of a harness.
+pub struct Hooks {
+    pub before: fn(&Event) -> Directive,
+    pub after: fn(&Event),
+}
+
+static HOOKS: std_atomic::AtomicPtr<Hooks> = std_atomic::AtomicPtr::new(0 as *mut Hooks);
+
+/// Installs the hooks for the rest of the process.
+pub fn install(hooks: &'static Hooks) {
+    HOOKS.store(hooks as *const Hooks as *mut Hooks, Ordering::SeqCst);
+}
+
+fn hooks() -> Option<&'static Hooks> {
+    unsafe { HOOKS.load(Ordering::SeqCst).as_ref() }
+}
+
+fn ord_code(o: Ordering) -> u8 {
+    match o {
+        Ordering::Relaxed => 0,
+        Ordering::Release => 1,
+        Ordering::Acquire => 2,
+        Ordering::AcqRel => 3,
+        Ordering::SeqCst => 4,
+        _ => 254,
+    }
+}
+
+fn ev(op: Op, addr: usize, arg: usize, ord: u8) -> Event {
+    Event {
+        op,
+        addr,
+        arg,
+        arg2: 0,
+        res: 0,
+        ok: true,
+        ord,
+        ord_fail: 255,
+        weak: false,
+    }
+}
+
+fn before(e: &Event) -> Directive {
+    match hooks() {
+        Some(h) => (h.before)(e),
+        None => Directive::Proceed,
+    }
+}
+
+fn after(e: &Event) {
+    if let Some(h) = hooks() {
+        (h.after)(e)
+    }
+}
+
+/// A scheduling point with no result (used around system calls, frees and cell accesses).
+pub fn point(op: Op, addr: usize, arg: usize) {
+    let e = ev(op, addr, arg, 255);
+    before(&e);
+    after(&e);
+}
+
+/// Reports an event that is not a scheduling point.
+pub fn note(op: Op, addr: usize, arg: usize) {
+    let e = ev(op, addr, arg, 255);
+    after(&e);
+}
+
+pub fn yield_now() {
+    let e = ev(Op::Yield, 0, 0, 255);
+    before(&e);
+    ::std::thread::yield_now();
+    after(&e);
+}
+
+pub fn spin_loop_hint() {
+    let e = ev(Op::Spin, 0, 0, 255);
+    before(&e);
+    after(&e);
+}
+
+macro_rules! addr_of {
+    ($s: expr) => {
+        $s as *const _ as *const u8 as usize
+    };
+}
+
+macro_rules! int_atomic {
+    ($name: ident, $std: ident, $t: ty) => {
+        #[derive(Default)]
+        pub struct $name(std_atomic::$std);
+
+        impl $name {
+            pub const fn new(v: $t) -> Self {
+                $name(std_atomic::$std::new(v))
+            }
+            pub fn load(&self, o: Ordering) -> $t {
+                let mut e = ev(Op::Load, addr_of!(self), 0, ord_code(o));
+                before(&e);
+                let r = self.0.load(o);
+                e.res = r as usize;
+                after(&e);
+                r
+            }
+            pub fn store(&self, v: $t, o: Ordering) {
+                let e = ev(Op::Store, addr_of!(self), v as usize, ord_code(o));
+                before(&e);
+                self.0.store(v, o);
+                after(&e);
+            }
+            pub fn compare_exchange(
+                &self,
+                cur: $t,
+                new: $t,
+                s: Ordering,
+                f: Ordering,
+            ) -> Result<$t, $t> {
+                let mut e = ev(Op::Cas, addr_of!(self), cur as usize, ord_code(s));
+                e.arg2 = new as usize;
+                e.ord_fail = ord_code(f);
+                before(&e);
+                let r = self.0.compare_exchange(cur, new, s, f);
+                e.ok = r.is_ok();
+                e.res = match r {
+                    Ok(v) | Err(v) => v as usize,
+                };
+                after(&e);
+                r
+            }
+            pub fn compare_exchange_weak(
+                &self,
+                cur: $t,
+                new: $t,
+                s: Ordering,
+                f: Ordering,
+            ) -> Result<$t, $t> {
+                let mut e = ev(Op::Cas, addr_of!(self), cur as usize, ord_code(s));
+                e.arg2 = new as usize;
+                e.ord_fail = ord_code(f);
+                e.weak = true;
+                let r = match before(&e) {
+                    // A spurious failure still returns the current value (loaded with the failure
+                    // ordering).
+                    Directive::FailSpuriously => Err(self.0.load(f)),
+                    // The strong one never fails spuriously, so the harness is in control.
+                    Directive::Proceed => self.0.compare_exchange(cur, new, s, f),
+                };
+                e.ok = r.is_ok();
+                e.res = match r {
+                    Ok(v) | Err(v) => v as usize,
+                };
+                after(&e);
+                r
+            }
+        }
+
+        impl fmt::Debug for $name {
+            fn fmt(&self, fmt: &mut fmt::Formatter) -> fmt::Result {
+                self.0.fmt(fmt)
+            }
+        }
+    };
+}
+
+int_atomic!(AtomicBool, AtomicBool, bool);
+int_atomic!(AtomicU16, AtomicU16, u16);
+int_atomic!(AtomicUsize, AtomicUsize, usize);
+
+impl AtomicUsize {
+    pub fn fetch_add(&self, v: usize, o: Ordering) -> usize {
+        let mut e = ev(Op::FetchAdd, addr_of!(self), v, ord_code(o));
+        before(&e);
+        let r = self.0.fetch_add(v, o);
+        e.res = r;
+        after(&e);
+        r
+    }
+    pub fn fetch_sub(&self, v: usize, o: Ordering) -> usize {
+        let mut e = ev(Op::FetchSub, addr_of!(self), v, ord_code(o));
+        before(&e);
+        let r = self.0.fetch_sub(v, o);
+        e.res = r;
+        after(&e);
+        r
+    }
+}
+
+pub struct AtomicPtr<T>(std_atomic::AtomicPtr<T>);
+
+impl<T> AtomicPtr<T> {
+    pub const fn new(p: *mut T) -> Self {
+        AtomicPtr(std_atomic::AtomicPtr::new(p))
+    }
+    pub fn load(&self, o: Ordering) -> *mut T {
+        let mut e = ev(Op::Load, addr_of!(self), 0, ord_code(o));
+        before(&e);
+        let r = self.0.load(o);
+        e.res = r as usize;
+        after(&e);
+        r
+    }
+    pub fn swap(&self, p: *mut T, o: Ordering) -> *mut T {
+        let mut e = ev(Op::Swap, addr_of!(self), p as usize, ord_code(o));
+        before(&e);
+        let r = self.0.swap(p, o);
+        e.res = r as usize;
+        after(&e);
+        r
+    }
+}
+
+impl<T> Default for AtomicPtr<T> {
+    fn default() -> Self {
+        AtomicPtr(std_atomic::AtomicPtr::default())
+    }
+}
+
+impl<T> fmt::Debug for AtomicPtr<T> {
+    fn fmt(&self, fmt: &mut fmt::Formatter) -> fmt::Result {
+        self.0.fmt(fmt)
+    }
+}
+
+/// A mutex whose every acquisition attempt is a scheduling point (so a harness sees a thread
+/// waiting for it instead of being blocked inside the OS) and whose release is one too.
+pub struct Mutex<T>(::std::sync::Mutex<T>);
+
+pub struct MutexGuard<'a, T: 'a> {
+    inner: Option<::std::sync::MutexGuard<'a, T>>,
+    addr: usize,
+}
+
+impl<T> Mutex<T> {
+    pub fn new(v: T) -> Self {
+        Mutex(::std::sync::Mutex::new(v))
+    }
+
+    pub fn lock(&self) -> LockResult<MutexGuard<T>> {
+        let addr = addr_of!(self);
+        loop {
+            let mut e = ev(Op::Lock, addr, 0, 255);
+            before(&e);
+            match self.0.try_lock() {
+                Ok(g) => {
+                    after(&e);
+                    return Ok(MutexGuard {
+                        inner: Some(g),
+                        addr,
+                    });
+                }
+                Err(TryLockError::Poisoned(p)) => {
+                    e.arg = 1;
+                    after(&e);
+                    return Err(PoisonError::new(MutexGuard {
+                        inner: Some(p.into_inner()),
+                        addr,
+                    }));
+                }
+                Err(TryLockError::WouldBlock) => {
+                    e.ok = false;
+                    after(&e);
+                    if hooks().is_none() {
+                        ::std::thread::yield_now();
+                    }
+                }
+            }
+        }
+    }
+}
+
+impl<T: fmt::Debug> fmt::Debug for Mutex<T> {
+    fn fmt(&self, fmt: &mut fmt::Formatter) -> fmt::Result {
+        self.0.fmt(fmt)
+    }
+}
+
+impl<'a, T> Deref for MutexGuard<'a, T> {
+    type Target = T;
+    fn deref(&self) -> &T {
+        self.inner.as_ref().unwrap()
+    }
+}
+
+impl<'a, T> DerefMut for MutexGuard<'a, T> {
+    fn deref_mut(&mut self) -> &mut T {
+        self.inner.as_mut().unwrap()
+    }
+}
+
+impl<'a, T> Drop for MutexGuard<'a, T> {
+    fn drop(&mut self) {
+        let e = ev(Op::Unlock, self.addr, 0, 255);
+        // Do not park a thread that is unwinding: the harness would wait for a panic forever.
+        if !::std::thread::panicking() {
+            before(&e);
+        }
+        self.inner = None;
+        after(&e);
+    }
+}
